@@ -150,7 +150,7 @@ class Ctx:
         if env:
             e.update(env)
         rc, out = self._tlc(module, cfg, env=e, timeout=timeout, workers=1)
-        m = re.findall(r"HWM (\d+) of (\d+)", out)
+        m = re.findall(r'<<"HWM", (-?\d+), "of", (\d+)>>', out)
         hwm, total = (int(m[-1][0]), int(m[-1][1])) if m else (-1, -1)
         accepted = rc == 0 and "No error has been found" in out
         if not accepted and hwm < 0 and "Postcondition" not in out and "violated" not in out:
